@@ -326,7 +326,9 @@ class BaseTemplate:
         return cooked
 
     def digest(self, body: str, names: Collection[str]) -> str:
-        class_name = type(self).__name__.encode('utf-8')
+        cls = type(self)
+        class_name = "{}.{}".format(
+            cls.__module__, cls.__qualname__).encode('utf-8')
         sha = get_pkg_digest()
         sha.update(body.encode('utf-8', 'ignore'))
         sha.update(class_name)
